@@ -35,9 +35,10 @@ for d in sorted(glob.glob(os.path.join(SRC, 'C*', 'm*'))):
     if mm: needs = ' '.join(mm.group(1).split())[:900]
     NEUTRAL = {'C11-m1': 'neutralised by fix d3240a8: executeCompaction now returns (nil, err) when closing the output fails, the only remaining (metadata, err) combination is a failing Close of an INPUT reader, for which the installed output is complete',
                'C17-m2': 'neutralised by fix 295f567: PutBytes (through which Put goes) validates before anything is logged, so moving Put\'s own check behind the WAL append has no effect any more'}
+    NEUTRAL_TAGGED = {('r9', 'C06', 'm1'): 'neutralised by fix 695c32f (found in the same round): NewSimpleDB now resolves the base path once, which also cleans it, so a flush path built without filepath.Join no longer differs from the cleaned one; the demonstration passes on the repaired tree with the patch applied'}
     meta = {
         'property': prop,
-        'note': NEUTRAL.get(prop + '-' + m, ''),
+        'note': NEUTRAL_TAGGED.get((TAG, prop, m), NEUTRAL.get(prop + '-' + m, '') if not TAG else ''),
         'origin': 'independent sub-agent given only the property text and a scratch worktree of ' + BASE,
         'patch': 'patch.diff (against ' + BASE + ')' + ('; patch.ported.diff (hand-ported to the repaired tree, same mechanism)' if os.path.exists(os.path.join(d, 'patch.ported.diff')) else ''),
         'needs_to_manifest': needs or 'see notes.md',
